@@ -33,6 +33,11 @@ theorem call_under_writer_lock_after_recheck :
 /-- the lock is a `sync.RWMutex` (reader count + writer flag in the model), the map is keyed by the string key -/
 theorem mutex_ok : Extracted.Cache.mutexType = "sync.RWMutex" ∧ Extracted.Cache.entriesType = "map[string]" := by decide
 
+/-- `Freeze` does nothing, and the struct has no state besides the mutex, the map and the bound method: a frozen cache
+behaves like a fresh one (`C20_freeze_irrelevant`) -/
+theorem freeze_is_noop_ok : Extracted.Cache.freezeBody = Cache.freezeBody := by decide
+theorem cache_fields_ok : Extracted.Cache.cacheFields = Cache.cacheFields := by decide
+
 /-- everything else about the two functions' synchronisation skeletons: unchanged since the model was written -/
 theorem get_skeleton_ok : Extracted.Cache.getSkeleton = Expected.Cache.getSkeleton := rfl
 theorem once_skeleton_ok : Extracted.Cache.onceSkeleton = Expected.Cache.onceSkeleton := rfl
